@@ -128,6 +128,19 @@ theorem C16_total_work (Nu Nv n : Nat) (hn : 0 < n) :
     ((threadChunks Nu Nv n).map List.length).sum = Nu * Nv := by
   rw [threadChunks, C16_chunk_lengths _ _ hn, sum_arraySplitSizes _ _ hn, C16_length_pairList]
 
+/-- every write lands inside the flattened output block of `Nu * Nv * nt` entries -/
+theorem C16_flatSlot_bound (Nu Nv nt i j k : Nat) (hi : i < Nv) (hj : j < Nu) (hk : k < nt) :
+    flatSlot Nv nt i j k < Nu * Nv * nt := by
+  unfold flatSlot
+  have h1 : Nv * j + i + 1 ≤ Nv * Nu := by
+    have : Nv * (j + 1) ≤ Nv * Nu := Nat.mul_le_mul_left Nv hj
+    rw [Nat.mul_add, Nat.mul_one] at this
+    omega
+  have h2 : nt * (Nv * j + i + 1) ≤ nt * (Nv * Nu) := Nat.mul_le_mul_left nt h1
+  have h3 : nt * (Nv * j + i + 1) = nt * (Nv * j + i) + nt := by rw [Nat.mul_add, Nat.mul_one]
+  have h4 : Nu * Nv * nt = nt * (Nv * Nu) := by rw [Nat.mul_comm Nu Nv, Nat.mul_comm]
+  omega
+
 /-- non-vacuity: 2×3 local matrix, 4 workers -/
 example : threadChunks 2 3 4 = [[(0,0),(1,0)], [(2,0),(0,1)], [(1,1)], [(2,1)]] := by decide
 example : threadChunks 1 1 3 = [[(0,0)], [], []] := by decide
